@@ -27,6 +27,7 @@ pub fn defs() -> Vec<ScenDef> {
         d("barc", barc, true),
         d("relock", relock, true),
         d("rwseq", rwseq, false),
+        d("stale", stale, false),
         d("hsmutex", hsmutex, false),
         d("hssem", hssem, false),
     ]
@@ -1317,6 +1318,189 @@ fn rwseq(x: &mut Exec) -> Res {
     match l.try_write() {
         Err(TryLockError::WouldBlock) => return viol(format!("RwLock model: try_write is WouldBlock after every guard was dropped; ops={:?}", trace)),
         _ => {}
+    }
+    Ok(())
+}
+
+
+// ------------------------------------------------------------------------------------ C05 / C10 / C11 / C12: many waiters that gave up
+/// A waiter that gives up (time-out, cancel) stays in the primitive's wait queue; whoever posts / notifies / unlocks / fires
+/// next has to get past all of them. That walk used to be a recursion, one level per stale waiter (D35): the operation
+/// overflowed the stack of the coroutine that called it and the permit / lock / notification was lost half way. The
+/// operation runs on a coroutine with may's *default* stack size here (the harness runs its actors on larger ones).
+fn stale(x: &mut Exec) -> Res {
+    let kind = x.rng.below(5); // 0 semaphore, 1 condvar, 2 flag, 3 mutex (cancelled waiters), 4 rwlock (cancelled waiters)
+    let n = *x.rng.pick(&[40usize, 300, 1200, if x.thorough { 6000 } else { 2500 }]);
+    let n = if kind >= 3 { n.min(1500) } else { n };
+    let errs = Arc::new(std::sync::Mutex::new(Vec::<String>::new()));
+    let what = ["Semphore::post after timed-out waits", "Condvar::notify_one after timed-out waits", "SyncFlag::fire after timed-out waits", "Mutex unlock after cancelled lockers", "RwLock write-unlock after cancelled writers"][kind as usize];
+    x.desc = format!("{}: {} waiters that gave up in a row, the operation runs on a coroutine with the default stack", what, n);
+    // run `op` on a coroutine with the default stack size, report how it ended
+    fn on_default_stack<F: FnOnce() + Send + 'static>(a: &Actor, name: &'static str, op: F) -> bool {
+        a.call(name, 0);
+        let h = unsafe { may::coroutine::Builder::new().stack_size(0x1000).spawn(op) };
+        let ok = match h {
+            Ok(h) => h.join().is_ok(),
+            Err(_) => false,
+        };
+        a.ret(name, 0, ok as u64);
+        ok
+    }
+    match kind {
+        0 => {
+            let sem = Arc::new(Semphore::new(0));
+            let e = errs.clone();
+            x.spawn("driver", true, move |a| {
+                a.call("wait_timeout_xN", n as u64);
+                for _ in 0..n {
+                    if sem.wait_timeout(Duration::from_micros(30)) {
+                        e.lock().unwrap().push("wait_timeout succeeded on a semaphore nobody posted".into());
+                    }
+                }
+                a.ret("wait_timeout_xN", n as u64, 0);
+                let s2 = sem.clone();
+                if !on_default_stack(a, "post", move || s2.post()) {
+                    e.lock().unwrap().push(format!("post() after {} timed-out waits did not return (panicked: stack overflow of the posting coroutine)", n));
+                }
+                if sem.get_value() != 1 {
+                    e.lock().unwrap().push(format!("value {} after one post and {} timed-out waits (expected 1: the permit got lost among the waiters that had given up)", sem.get_value(), n));
+                }
+                a.call("wait", 0);
+                let got = sem.wait_timeout(Duration::from_millis(200));
+                a.ret("wait", 0, got as u64);
+                if !got {
+                    e.lock().unwrap().push("the posted permit cannot be taken".into());
+                }
+            });
+        }
+        1 => {
+            let pair = Arc::new((Mutex::new(0u32), Condvar::new()));
+            let e = errs.clone();
+            x.spawn("driver", true, move |a| {
+                a.call("cv_wait_timeout_xN", n as u64);
+                {
+                    let mut g = pair.0.lock().unwrap();
+                    for _ in 0..n {
+                        g = pair.1.wait_timeout(g, Duration::from_micros(30)).unwrap().0;
+                    }
+                }
+                a.ret("cv_wait_timeout_xN", n as u64, 0);
+                // a live waiter behind the stale ones must get the notification
+                let p2 = pair.clone();
+                let woken = Arc::new(AtomicBool::new(false));
+                let w2 = woken.clone();
+                let h = unsafe {
+                    may::coroutine::spawn(move || {
+                        let mut g = p2.0.lock().unwrap();
+                        while *g == 0 {
+                            g = p2.1.wait(g).unwrap();
+                        }
+                        w2.store(true, SeqCst);
+                    })
+                };
+                nap(2000);
+                *pair.0.lock().unwrap() = 1;
+                let p3 = pair.clone();
+                if !on_default_stack(a, "notify_one", move || p3.1.notify_one()) {
+                    e.lock().unwrap().push(format!("notify_one() after {} timed-out waits did not return (panicked: stack overflow of the notifying coroutine)", n));
+                    // release the waiter so that the execution can end
+                    pair.1.notify_all();
+                }
+                a.call("join_waiter", 0);
+                let t0 = Instant::now();
+                while !h.is_done() && t0.elapsed() < Duration::from_secs(5) {
+                    may::coroutine::sleep(Duration::from_millis(1));
+                }
+                a.ret("join_waiter", 0, h.is_done() as u64);
+                if !woken.load(SeqCst) {
+                    e.lock().unwrap().push(format!("the waiter behind {} stale entries was not woken by notify_one", n));
+                    pair.1.notify_all();
+                }
+                let _ = h.join();
+            });
+        }
+        2 => {
+            let f = Arc::new(SyncFlag::new());
+            let e = errs.clone();
+            x.spawn("driver", true, move |a| {
+                a.call("flag_wait_timeout_xN", n as u64);
+                for _ in 0..n {
+                    if f.wait_timeout(Duration::from_micros(30)) {
+                        e.lock().unwrap().push("wait_timeout returned true on a flag nobody fired".into());
+                    }
+                }
+                a.ret("flag_wait_timeout_xN", n as u64, 0);
+                let f2 = f.clone();
+                if !on_default_stack(a, "fire", move || f2.fire()) {
+                    e.lock().unwrap().push(format!("fire() after {} timed-out waits did not return (panicked: stack overflow of the firing coroutine)", n));
+                }
+                if !f.is_fired() || !f.wait_timeout(Duration::from_millis(100)) {
+                    e.lock().unwrap().push("the flag does not read fired after fire()".into());
+                }
+            });
+        }
+        _ => {
+            let e = errs.clone();
+            x.spawn("driver", true, move |a| {
+                let m = Arc::new(Mutex::new(0u32));
+                let rw = Arc::new(RwLock::new(0u32));
+                let (tx, rx) = may::sync::mpsc::channel::<()>();
+                let (m2, rw2) = (m.clone(), rw.clone());
+                // the holder releases on a coroutine with the default stack
+                a.call("hold", 0);
+                let holder = unsafe {
+                    may::coroutine::Builder::new().stack_size(0x1000).spawn(move || {
+                        if kind == 3 {
+                            let g = m2.lock().unwrap();
+                            let _ = rx.recv();
+                            drop(g);
+                        } else {
+                            let g = rw2.write().unwrap();
+                            let _ = rx.recv();
+                            drop(g);
+                        }
+                    })
+                }
+                .unwrap();
+                nap(500);
+                let mut hs = vec![];
+                for _ in 0..n {
+                    let (m3, rw3) = (m.clone(), rw.clone());
+                    hs.push(unsafe {
+                        may::coroutine::spawn(move || {
+                            if kind == 3 {
+                                let _g = m3.lock().unwrap();
+                            } else {
+                                let _g = rw3.write().unwrap();
+                            }
+                        })
+                    });
+                }
+                nap(3000 + n as u64 * 2);
+                for h in &hs {
+                    unsafe { h.coroutine().cancel() };
+                }
+                for h in hs {
+                    let _ = h.join();
+                }
+                a.ret("hold", 0, 0);
+                a.call("unlock", 0);
+                let _ = tx.send(());
+                let ok = holder.join().is_ok();
+                a.ret("unlock", 0, ok as u64);
+                if !ok {
+                    e.lock().unwrap().push(format!("the unlock after {} cancelled waiters did not return (panicked: stack overflow of the unlocking coroutine)", n));
+                }
+                let free = if kind == 3 { m.try_lock().is_ok() } else { rw.try_write().is_ok() };
+                if !free {
+                    e.lock().unwrap().push(format!("the lock is still held after its holder released it behind {} cancelled waiters", n));
+                }
+            });
+        }
+    }
+    x.wait_all()?;
+    if let Some(e) = errs.lock().unwrap().first() {
+        return viol(format!("{}: {}", what, e));
     }
     Ok(())
 }
